@@ -1,6 +1,8 @@
 package spine
 
 import (
+	"sync"
+
 	"fmt"
 
 	"github.com/enbility/spine-go/api"
@@ -14,6 +16,8 @@ type Feature struct {
 	description *model.DescriptionType
 	role        model.RoleType
 	operations  map[model.FunctionType]api.OperationsInterface
+
+	opMux sync.RWMutex // guards operations
 }
 
 var _ api.FeatureInterface = (*Feature)(nil)
@@ -41,7 +45,16 @@ func (r *Feature) Role() model.RoleType {
 }
 
 func (r *Feature) Operations() map[model.FunctionType]api.OperationsInterface {
-	return r.operations
+	r.opMux.RLock()
+	defer r.opMux.RUnlock()
+
+	// hand out a copy: the map is changed by AddFunctionType and SetOperations
+	res := make(map[model.FunctionType]api.OperationsInterface, len(r.operations))
+	for key, value := range r.operations {
+		res[key] = value
+	}
+
+	return res
 }
 
 func (r *Feature) Description() *model.DescriptionType {
